@@ -4,9 +4,12 @@ set -u
 P=$1; D=$(realpath $2); T=${3:-quick}
 WT=$(mktemp -d /tmp/wt-mut-XXXXXX); rmdir $WT
 git -C /repo worktree add -q $WT HEAD || exit 9
-if ! git -C $WT apply $D; then echo "APPLY-FAILED $D"; git -C /repo worktree remove --force $WT; exit 9; fi
+if ! git -C $WT apply $D 2>/dev/null; then
+  # plain `diff -u` output (other path prefixes): let patch find the file by the old name
+  if ! (cd $WT && patch -p1 --forward --batch -s < $D >/dev/null 2>&1); then echo "APPLY-FAILED $D"; git -C /repo worktree remove --force $WT; exit 9; fi
+fi
 cd /verif && VERIF_REPO=$WT ./check $P $T > $WT.out 2>&1; rc=$?
-echo "mutant $(basename $D): rc=$rc $(grep -c '^VIOLATION' $WT.out) violation lines; sigs: $(grep '^  signature=' $WT.out | sort | uniq -c | sort -rn | head -4 | tr '\n' ';')"
+echo "mutant $(basename $D): rc=$rc $(grep -ac '^VIOLATION' $WT.out) violation lines; sigs: $(grep -a '^  signature=' $WT.out | sort | uniq -c | sort -rn | head -4 | tr '\n' ';')"
 tail -1 $WT.out
 git -C /repo worktree remove --force $WT; rm -f $WT.out
 exit $rc
